@@ -28,9 +28,13 @@ from bounded.common import (
     ucharge,
 )
 from bounded import oracles_fermi as OF
-from bounded.run_C03 import mk_spec, normalise, pick_charge, spec_feats, spec_fp
+from bounded.run_C03 import as_conj, mk_spec, normalise, pick_charge, spec_feats, spec_fp
 
 CONTRACTS = {
+    "C04.routes_conj_labels": (
+        "as C04.routes but some odd tensors are built as conjugates, so label words mix dual and non-dual operators: (i) all label values distinct, (ii) a label and its conjugate on two different tensors (pair annihilation along some routes); pairs, 3-chain, triangle; Z2 and U1 (+ random all symmetries)",
+        "every parity assignment with >=1 odd tensor, every non-empty conjugation mask over the odd tensors, rotating label assignments; all contraction orders x operand orders with rotating variants",
+    ),
     "C04.routes": (
         "networks of 2-4 fermionic tensors (pairs with 1-3 bonds, 3-chain, triangle, 4-chain, 4-cycle; 0/1 dangling leg per tensor in every pattern), every bond orientation, every even/odd assignment, every assignment of distinct labels (ints and tuples) to the odd tensors, sparse operands, pending signs; routes: every pairwise contraction order x both operand orders, with rotating variants (axis-pair listing order, fermionically pre-transposed operands, one-bond-then-trace instead of simultaneous multi-bond contraction, fused/blockwise); all routes equal each other and the graded oracle (brute-force Grassmann value for small cases)",
         "quick: Z2 exhaustive as stated (4-tensor networks: all parities/orientations, 24 routes each), other symmetries every k-th structure; bond tables of 2 charges, block sizes 1-2; thorough: all symmetries, all routes; then seeded random networks with <=3 charges per leg, sizes <=3",
@@ -239,7 +243,7 @@ def gen_routes(legs, h, max_base=None, all_variants=False, allow_outer=False, sa
 # building networks
 
 
-def make_network(sym, topo, dang, orient, parities, labels, h, nsz=2, lazy=False, sparse=False, tables=None, dtype="float64", dang_duals=None):
+def make_network(sym, topo, dang, orient, parities, labels, h, nsz=2, lazy=False, sparse=False, tables=None, dtype="float64", dang_duals=None, conj_mask=None):
     name, n, bonds = topo
     tabs = tables or LEG_TABLES[sym]
     legs = [[] for _ in range(n)]
@@ -276,6 +280,8 @@ def make_network(sym, topo, dang, orient, parities, labels, h, nsz=2, lazy=False
         specs.append(
             mk_spec(sym, idx[t], ch, h + 101 * t, label=lab, lazy=lazy and (stable_hash((h, "lz", t)) % 2 == 0), sparse=sparse and (stable_hash((h, "sp", t)) % 2 == 0), dtype=dtype)
         )
+        if conj_mask is not None and conj_mask[t]:
+            specs[-1] = as_conj(specs[-1])
     return specs, legs
 
 
@@ -343,6 +349,46 @@ def gen_cases(tier, seed):
                             else:
                                 routes = gen_routes(legs, h, max_base=24 if quick else None)
                             yield {"contract": "C04.routes", "sym": sym, "topo": name, "tensors": specs, "legs": legs, "routes": routes}
+    # ---------------- conjugated tensors: dual labels, conjugate label pairs
+    for sym in ("Z2", "U1") if quick else ("Z2", "U1", "Z4", "Z2Z2", "U1U1"):
+        for topo in TOPOS[:5]:
+            name, n, bonds = topo
+            nb = len(bonds)
+            k = 0
+            for dang in dangling_patterns(n):
+                for parities in itertools.product((0, 1), repeat=n):
+                    odd = [i for i, p in enumerate(parities) if p]
+                    if not odd or (sum(dang) == 0 and len(odd) % 2):
+                        continue
+                    for cm_bits in itertools.product((0, 1), repeat=len(odd)):
+                        if not any(cm_bits):
+                            continue
+                        for shared in (False, True):
+                            if shared and (len(odd) < 2 or len(set(cm_bits)) < 2):
+                                continue
+                            k += 1
+                            ctr += 1
+                            if quick and sym != "Z2" and k % 3:
+                                continue
+                            h = stable_hash((sym, name, "cj", dang, parities, cm_bits, shared))
+                            orient = [(h >> i) & 1 for i in range(nb)]
+                            mask = [False] * n
+                            for i, bit in zip(odd, cm_bits):
+                                mask[i] = bool(bit)
+                            vals = _perm_from(h // 3, len(odd))
+                            labels = [None] * n
+                            for i, v in zip(odd, vals):
+                                labels[i] = 1 + v
+                            if shared:
+                                # a conjugated and a plain tensor carry the same label value
+                                i0 = next(i for i in odd if mask[i])
+                                i1 = next(i for i in odd if not mask[i])
+                                labels[i1] = labels[i0]
+                            if ctr % 4 == 0:
+                                labels = [None if l is None else [[l % 2, l]] for l in labels]
+                            specs, legs = make_network(sym, topo, dang, orient, parities, labels, h, nsz=2, lazy=(ctr % 3 == 0), sparse=(ctr % 5 == 0), conj_mask=mask)
+                            routes = gen_routes(legs, h, all_variants=(n == 2), allow_outer=True)
+                            yield {"contract": "C04.routes_conj_labels", "sym": sym, "topo": name, "tensors": specs, "legs": legs, "routes": routes, "shared_label_values": shared}
     # ---------------- seeded random networks
     rng = np.random.default_rng([seed, 4])
     nrand = 1500 if quick else 40000
@@ -367,6 +413,11 @@ def gen_cases(tier, seed):
         h = int(rng.integers(0, 2**31 - 1))
         specs, legs = make_network(sym, topo, dang, orient, parities, labels, h, nsz=3, lazy=bool(rng.integers(0, 2)), sparse=bool(rng.integers(0, 2)), tables=tables, dtype="complex128" if it % 13 == 0 else "float64")
         routes = gen_routes(legs, h, max_base=10, all_variants=(n == 2), allow_outer=bool(rng.integers(0, 5) == 0))
+        if it % 4 == 3:
+            mask = rng.integers(0, 2, size=n).astype(bool).tolist()
+            specs = [as_conj(sp) if m else sp for sp, m in zip(specs, mask)]
+            yield {"contract": "C04.routes_conj_labels", "sym": sym, "topo": name, "tensors": specs, "legs": legs, "routes": routes, "shared_label_values": False}
+            continue
         yield {"contract": "C04.routes", "sym": sym, "topo": name, "tensors": specs, "legs": legs, "routes": routes}
 
 
@@ -413,6 +464,14 @@ def route_feats(route):
     return sorted(f)
 
 
+def _has_conj_pair(arrays):
+    seen = {}
+    for x in arrays:
+        for l, dl in labels_of(x):
+            seen.setdefault(repr(l), set()).add(dl)
+    return any(len(v) == 2 for v in seen.values())
+
+
 def check_network(d, arrays, contract="C04"):
     """shared by C04 and C10: run all routes of d on `arrays`, compare with the
     graded oracle and with each other.  Returns (failures, g, how, results)"""
@@ -438,6 +497,8 @@ def check_network(d, arrays, contract="C04"):
         "parities": [G.par(sym, x.charge) for x in arrays],
         "lazy": any(bool(getattr(x, "_phases", None)) for x in arrays),
         "labels": [[list(map(str, l)) for l in labels_of(x)] for x in arrays],
+        "dual_labels": any(dl for x in arrays for _, dl in labels_of(x)),
+        "conj_label_pair": _has_conj_pair(arrays),
     }
     fails = []
     first = None
@@ -458,19 +519,30 @@ def check_network(d, arrays, contract="C04"):
         else:
             ok, why = OF.same_observable(first, r, exp)
             if not ok:
-                fails.append((f"{contract}.route_independence", f"route {ri} {route} differs from route 0 {d['routes'][0]}: {why}", feats))
+                ob = "route_independence.labels_only" if "LABELS_ONLY" in why else "route_independence"
+                fails.append((f"{contract}.{ob}", f"route {ri} {route} differs from route 0 {d['routes'][0]}: {why}", feats))
     return fails, g, how, results
+
+
+def _dedupe(fails):
+    """keep the first failure of every obligation (a network has many routes)"""
+    seen, out = set(), []
+    for f in fails:
+        if f[0] not in seen:
+            seen.add(f[0])
+            out.append(f)
+    return out
 
 
 def check_case(d):
     d = normalise(d)
     arrays = [build_array(s) for s in d["tensors"]]
-    fails, g, how, _ = check_network(d, arrays, "C04")
+    fails, g, how, _ = check_network(d, arrays, d["contract"])
     fp = ("N", d["sym"], d.get("topo"), tuple(spec_fp(s) for s in d["tensors"]), repr(d["legs"]), stable_hash(repr(d["routes"])))
     return {
         "fingerprint": fp,
         "nontrivial": bool(np.any(g.D != 0)),
-        "failures": fails[:6],
+        "failures": _dedupe(fails)[:6],
         "sample": {"sym": d["sym"], "topo": d.get("topo"), "legs": d["legs"], "charges": [s["charge"] for s in d["tensors"]], "n_routes": len(d["routes"]), "oracle": how, "result_labels": [list(map(str, l)) for l in g.labels], "nonzero": bool(np.any(g.D != 0))},
     }
 
